@@ -25,7 +25,7 @@ func runC07(c *Ctx) {
 	c.checkIupacTables()
 	c.checkModelSiblings()
 	c.checkWeightedAccumulation("weighted-accumulation")
-	L.Floor("weighted-accumulation", 12, "accumulations in the five counters and probaNt")
+	L.Floor("weighted-accumulation", 6, "accumulations in the five counters and probaNt (floor = half of the instances on the pinned tree: a clean-up may merge instances, a rule that sees nothing must still fail)")
 	L.Rule("accumulator-reset", "in InitModel, a receiver field that is accumulated into (m.f = m.f + x) is assigned afresh earlier in the same call on every path, so that initialising the same model object for another alignment does not start from the previous value")
 	nAcc := 0
 	for _, m := range dnaModels {
@@ -147,7 +147,7 @@ func (c *Ctx) checkNaNClamp() {
 			L.OK("nan-clamp", r.label, "no branch on the estimator", c.P.Pos(fn.Pos()), "the computed value is returned unchanged")
 		}
 	}
-	L.Floor("nan-clamp", 7, "seven models")
+	L.Floor("nan-clamp", 3, "seven models (floor = half of the instances on the pinned tree: a clean-up may merge instances, a rule that sees nothing must still fail)")
 }
 
 // ---------------------------------------------------------------------------
@@ -256,7 +256,7 @@ func (c *Ctx) checkSymmetricStores(r *fnRef, _ string) {
 			L.Bad("symmetric-stores", fname, name, c.P.Pos(x.st.Pos()), "no store of the same value to the mirrored cell m["+x.b+"]["+x.a+"] in this function: the matrix is not symmetric")
 		}
 	}
-	L.Floor("symmetric-stores", 5, "diagonal, worker pair, substitution pair")
+	L.Floor("symmetric-stores", 2, "diagonal, worker pair, substitution pair (floor = half of the instances on the pinned tree: a clean-up may merge instances, a rule that sees nothing must still fail)")
 }
 
 func sameOperand(a, b ssa.Value) bool {
@@ -380,7 +380,7 @@ func (c *Ctx) checkSubstitutionBranch() {
 		}
 	}
 	L.Check(nSub == 2, "substitute-branch", r.label, "substitute is 2*max in both cells", c.P.Pos(r.F.Pos()), "two stores of 2*max after the join", fmt.Sprintf("%d stores of 2*max after the join, want 2", nSub))
-	L.Floor("substitute-branch", 5, "three tests, maximum, substitute")
+	L.Floor("substitute-branch", 2, "three tests, maximum, substitute (floor = half of the instances on the pinned tree: a clean-up may merge instances, a rule that sees nothing must still fail)")
 }
 
 // ---------------------------------------------------------------------------
@@ -455,7 +455,7 @@ func (c *Ctx) checkModelSiblings() {
 				"a counter is not called with (seq1, seq2, m.selectedSites, weights): the site selection or the site weights are lost")
 		}
 	}
-	L.Floor("model-siblings", 14, "7 InitModel + 7 Distance")
+	L.Floor("model-siblings", 7, "7 InitModel + 7 Distance (floor = half of the instances on the pinned tree: a clean-up may merge instances, a rule that sees nothing must still fail)")
 }
 
 func resultStoredToField(call *ssa.Call, idx int, field string) bool {
